@@ -19,6 +19,8 @@ pub enum Call {
     Msg,
     Update,
     Enable,
+    /// enable_steady_tick(1 ms) with a clock in which every reading takes 5 ms (a tick takes longer than the interval)
+    EnableShort,
     Disable,
     Finish,
     Abandon,
@@ -32,6 +34,8 @@ pub enum Call {
     MpSuspend,
     MpSuspendWrite,
     MpAdd,
+    MpInsertBefore,
+    MpInsertAfter,
     MpClear,
     DropOwn,
     TickB,
@@ -66,7 +70,7 @@ impl Program {
         v
     }
     pub fn uses_ticker(&self) -> bool {
-        self.threads.iter().flatten().any(|c| matches!(c, Call::Enable))
+        self.threads.iter().flatten().any(|c| matches!(c, Call::Enable | Call::EnableShort))
     }
 }
 
@@ -93,7 +97,7 @@ pub fn programs_for(family: &str, tier: &str) -> Vec<Program> {
     match family {
         "C08" => {
             let single: Vec<Call> = vec![Call::Tick, Call::Inc(1), Call::Msg, Call::Update, Call::Enable, Call::Disable, Call::Finish, Call::Println, Call::Suspend, Call::CloneDrop, Call::IsFinished];
-            let multi_extra: Vec<Call> = vec![Call::MpPrintln, Call::MpRemove, Call::MpSuspend];
+            let multi_extra: Vec<Call> = vec![Call::MpPrintln, Call::MpRemove, Call::MpSuspend, Call::MpInsertBefore, Call::MpInsertAfter];
             for multi in [false, true] {
                 let mut alpha = single.clone();
                 if multi {
@@ -118,6 +122,11 @@ pub fn programs_for(family: &str, tier: &str) -> Vec<Program> {
                         }
                     }
                 }
+            }
+            // a tick that takes longer than the tick interval (clock advances on every reading)
+            for &c in &[Call::Disable, Call::Enable, Call::Finish, Call::DropOwn, Call::Tick, Call::Update] {
+                v.push(Program { family: "C08", multi: false, ticker: false, share: Share::Clone, threads: vec![vec![Call::EnableShort], vec![c]] });
+                v.push(Program { family: "C08", multi: false, ticker: false, share: Share::Clone, threads: vec![vec![Call::EnableShort, c]] });
             }
             // three threads, calls that touch the ticker slot or join
             let slot: Vec<Call> = vec![Call::Update, Call::Tick, Call::Enable, Call::Disable, Call::Finish, Call::DropOwn];
@@ -213,8 +222,14 @@ pub fn programs_for(family: &str, tier: &str) -> Vec<Program> {
         }
         _ => {}
     }
+    // inserting next to an anchor that another thread removes is a caller error (the anchor must be a
+    // member: `insert_before` panics on a removed anchor also without any concurrency)
+    v.retain(|p: &Program| {
+        let all: Vec<Call> = p.threads.iter().flatten().copied().collect();
+        !(all.contains(&Call::MpRemove) && all.iter().any(|c| matches!(c, Call::MpInsertBefore | Call::MpInsertAfter)))
+    });
     // loom supports 5 threads per execution (main included); every enable_steady_tick spawns one
-    v.retain(|p: &Program| 1 + p.threads.len() + p.ticker as usize + p.threads.iter().flatten().filter(|c| matches!(c, Call::Enable)).count() <= 5);
+    v.retain(|p: &Program| 1 + p.threads.len() + p.ticker as usize + p.threads.iter().flatten().filter(|c| matches!(c, Call::Enable | Call::EnableShort)).count() <= 5);
     v
 }
 
@@ -292,6 +307,10 @@ fn do_call(c: Call, pb: &ProgressBar, w: &World, sh: &Shared) {
         Call::Msg => pb.set_message("m"),
         Call::Update => pb.update(|s| s.set_pos(3)),
         Call::Enable => pb.enable_steady_tick(Duration::from_secs(3600)),
+        Call::EnableShort => {
+            clock::set_step_ns(5_000_000);
+            pb.enable_steady_tick(Duration::from_millis(1))
+        }
         Call::Disable => {
             pb.disable_steady_tick();
             sh.disable_returned.store(true, Ordering::SeqCst);
@@ -337,6 +356,12 @@ fn do_call(c: Call, pb: &ProgressBar, w: &World, sh: &Shared) {
             n.tick();
             n.finish_and_clear();
         }
+        Call::MpInsertBefore | Call::MpInsertAfter => {
+            let nb = ProgressBar::with_draw_target(Some(9), ProgressDrawTarget::hidden()).with_style(ProgressStyle::with_template("{prefix}:{pos}").unwrap()).with_prefix("c");
+            let n = if c == Call::MpInsertBefore { w.mp.as_ref().unwrap().insert_before(pb, nb) } else { w.mp.as_ref().unwrap().insert_after(pb, nb) };
+            n.tick();
+            n.finish_and_clear();
+        }
         Call::MpClear => {
             let _ = w.mp.as_ref().unwrap().clear();
         }
@@ -355,6 +380,7 @@ fn oracle(msg: String) -> ! {
 
 pub fn execute(p: &Program, timeouts: usize, obs: &Obs) {
     verif_sync::set_timeout_budget(timeouts);
+    clock::set_step_ns(0);
     clock::reset();
     let sh = Arc::new(Shared {
         main_id: Mutex::new(Some(tid())),
@@ -430,7 +456,7 @@ pub fn execute(p: &Program, timeouts: usize, obs: &Obs) {
                 oracle(format!("ticker: manual tick()/inc() advanced the bar although a steady ticker was installed :: {} worker ticks", sh.worker_tracker_ticks.load(Ordering::SeqCst)));
             }
             // (v) the ticker ticks at most once per wake-up
-            let enables = all.iter().filter(|c| matches!(c, Call::Enable)).count() as u64 + p.ticker as u64;
+            let enables = all.iter().filter(|c| matches!(c, Call::Enable | Call::EnableShort)).count() as u64 + p.ticker as u64;
             if ticker_ticks > (timeouts as u64 + 1) * enables.max(1) && enables > 0 {
                 oracle(format!("ticker: more ticks than wake-ups :: {ticker_ticks} ticks, {} timeouts fired, {enables} tickers", timeouts));
             }
@@ -551,7 +577,7 @@ pub fn execute(p: &Program, timeouts: usize, obs: &Obs) {
 pub fn aggregate_check(p: &Program, _timeouts: usize, obs: &Obs) -> Option<String> {
     if p.family == "C08" && p.ticker {
         // liveness as far as loom can express it: in at least one schedule the steady-tick thread ticked
-        let finishes_first = p.threads.iter().flatten().any(|c| matches!(c, Call::Finish | Call::Disable | Call::Enable | Call::DropOwn));
+        let finishes_first = p.threads.iter().flatten().any(|c| matches!(c, Call::Finish | Call::Disable | Call::Enable | Call::EnableShort | Call::DropOwn));
         if obs.max_ticker_ticks.load(Ordering::Relaxed) == 0 && !finishes_first {
             return Some("ORACLE: ticker: the steady-tick thread never redrew the bar in any schedule".into());
         }
